@@ -11,7 +11,7 @@
   mode `sched`: a line is an interleaving  (t op)*  with op as above plus "e" x (enter), "x" x (exit)
     output: "<t>:<obs>" in schedule order ("K" = exit of a non-entered object), then "F<t>=<name>"
   mode `reg`:   (t k v)*  -> final table "k=v" sorted by k
-  mode `cache`: n fp_1 … fp_n "|" thread ids   (val f = f) -> "<t>=<v>" for finished threads, "<t>=?" else
+  mode `cache`: n fp_1 … fp_n "|" thread ids / e<fp> (eviction)   (val f = f) -> "<t>=<v>" for finished threads, "<t>=?" else
 -/
 import LabreaModel.RuntimeSM
 import LabreaModel.Threads
@@ -212,9 +212,11 @@ def runCacheLine (line : String) : String :=
     | none => "PARSE-ERROR n"
     | some n =>
       let fps := (rest.take n).map (fun s => s.toNat?.getD 0)
-      let sched := ((rest.drop n).filter (· ≠ "|")).map (fun s => s.toNat?.getD 0)
+      -- "<t>" = one atomic dict operation of thread t; "e<f>" = the backend drops the entry under f
+      let sched : List CEv := ((rest.drop n).filter (· ≠ "|")).map (fun s =>
+        if s.startsWith "e" then CEv.evict ((s.drop 1).toNat?.getD 0) else CEv.step (s.toNat?.getD 0))
       let fp : Thread → Fp := fun t => fps.getD t 0
-      let s := runCache (fun f => f) fp sched ⟨fun _ => none, fun _ => .start⟩
+      let s := runCacheEv (fun f => f) fp sched ⟨fun _ => none, fun _ => .start⟩
       " ".intercalate ((List.range n).map (fun t =>
         toString t ++ "=" ++ (match s.pc t with | .done v => toString v | _ => "?")))
   | [] => ""
